@@ -29,6 +29,17 @@ func init() {
 		{"C11", "bufviews", props.BufViews},
 		{"C10", "bufviews", props.BufViews},
 		{"C02", "bufviews", props.BufViews},
+		{"C13", "msb", props.C13msb},
+		{"C05", "native", props.C05native},
+		{"C12", "signdiff", props.C12signDiff},
+		{"C12", "operands", props.C12usesOperands},
+		{"C06", "honestlen", props.C06honest},
+		{"C20", "honestlen", props.C06honest},
+		{"C15", "honestlen", props.C06honest},
+		{"C11", "selectdrain", props.SelectDrain("p2p", "ot")},
+		{"C11", "unsafeview", props.UnsafeFirst},
+		{"C03", "precedence", props.C03prec},
+		{"C13", "bytes", props.C13bytes},
 		{"C07", "adder", props.C07adder},
 		{"C09", "adder", props.C07adder},
 		{"C03", "adder", props.C07adder},
